@@ -30,6 +30,8 @@ def gen_cases(seed, tier, n):
     for i in range(n):
         c = tracegen.gen_case(seed, i, tracegen.PROFILES[profs[i % len(profs)]])
         c["params"] = {"files": i % 3 == 0}
+        if i % 3 == 1:
+            tracegen.relabel_ranks(c)      # a subset of a job: rank ids are not 0..n-1, and not listed in order
         out.append(c)
     return out
 
